@@ -50,6 +50,10 @@ SPACES = {
          dict(variants=("Vertex", "FalsyBool", "FalsyLen"), unis="all-subsets", labels="-AZN")),
         (dict(nv=3, maxl=3, minl=3, classes=("D", "U")),
          dict(variants=("Vertex", "FalsyBool"), unis="all-minus-one", labels="-AN")),
+        # a cross edge back to a vertex still waiting on the stack, with another match in between,
+        # needs 4 vertices and 4 links
+        (dict(nv=4, maxl=4, minl=4, classes=("D",), self_loops=False),
+         dict(variants=("Vertex",), unis="none-only", labels="-A")),
     ],
     "thorough": [
         (dict(nv=3, maxl=3, classes=("D", "U", "Ds")),
@@ -70,6 +74,8 @@ def _plain(spec):
 def unis_for(w, mode):
     nv = len(w.v)
     out = [("none", None, frozenset(range(nv)))]
+    if mode == "none-only":
+        return out
     if mode == "all-subsets":
         subsets = [s for n in range(1, nv + 1) for s in itertools.combinations(range(nv), n)]
     else:
